@@ -14,10 +14,10 @@ RULE = ('(1) EXHAUSTIVE packet-set semantics: over 4 adjacent addresses x ports 
         'packets; (2) from_network -> get_network/get_port returns exactly the network and port given, for random networks of every prefix length; '
         '(3) RESPONDER, end to end: an independent initiator (valid AUTH) sends TSi/TSr lists of length 1-3 against 1- and 3-entry policies: when the '
         'responder installs, its answered TSi/TSr lie inside a proposed selector AND inside the policy, and the kernel selectors lie inside the policy; when no '
-        'proposed pair has a packet in common with any policy entry, or the mode differs, the answer is exactly TS_UNACCEPTABLE and nothing is installed; (4) INITIATOR: an '
+        'proposed pair has a packet in common with any policy entry OF THE MODE ASKED FOR, the answer is exactly TS_UNACCEPTABLE and nothing is installed (a policy whose entries have different modes is swept as a grid: entry x shape of the proposal x mode asked x position of the entry in the list; whatever is installed must have the mode of the entry its selectors lie in); (4) INITIATOR: an '
         'independent responder (valid AUTH) answers with selectors widened in address, port or protocol (TSi only, TSr only, both) or with the other mode: '
         'nothing may be installed; honest narrowing must be installed; (5) a CHILD_SA rekey between two real endpoints installs selectors equal to the replaced '
-        'SA\'s. distinct = case signatures.')
+        'SA\'s; (5b) an independent initiator creates a CHILD_SA narrower than the policy and asks to rekey it with 12 selector variants (equal, wider in address / port / protocol but inside the policy, the whole policy, wider than it, narrower, disjoint, two-entry lists, one side only): whatever is installed has exactly the replaced SA\'s selectors, equal ones must be accepted, a refusal is TS_UNACCEPTABLE. distinct = case signatures.')
 ASSUMPTIONS = ['well-formed selectors only (start <= end)', 'for partially overlapping proposals either refusal or narrowing is accepted',
                'the kernel selector of a non-CIDR address range is the enclosing prefix and the one-port range 0-0 maps to the kernel wildcard (port 0 is the wildcard encoding): noted, not flagged']
 SHARDS = {'quick': 8, 'thorough': 16}
@@ -142,16 +142,21 @@ POLICIES = {
     'three-entries': [dict(my_subnet='10.2.0.0/16', peer_subnet='10.1.0.0/16', my_port=0, peer_port=0, ip_proto='any'),
                       dict(my_subnet='10.3.3.0/24', peer_subnet='10.1.7.0/24', my_port=443, peer_port=0, ip_proto='tcp'),
                       dict(my_subnet='10.4.0.0/30', peer_subnet='10.1.0.0/16', my_port=53, peer_port=53, ip_proto='udp')],
+    # entries with DIFFERENT modes and pairwise disjoint selectors: the mode asked for is judged against the entry whose selectors are answered
+    'mixed-modes': [dict(my_subnet='10.2.0.0/25', peer_subnet='10.1.0.0/25', my_port=0, peer_port=0, ip_proto='any', mode='tunnel'),
+                    dict(my_subnet='10.9.0.0/24', peer_subnet='10.8.0.0/24', my_port=80, peer_port=0, ip_proto='tcp', mode='transport'),
+                    dict(my_subnet='10.5.0.0/26', peer_subnet='10.6.0.0/26', my_port=0, peer_port=0, ip_proto='udp', mode='tunnel')],
 }
 PROTO_NUM = {'tcp': 6, 'udp': 17, 'any': 0}
 
 
-def make_responder(seed, pname, mode):
+def make_responder(seed, pname, mode, rot=0):
     ca, cb = S.pair_conf(mode=mode)
     prot = []
-    for i, e in enumerate(POLICIES[pname]):
+    ents = POLICIES[pname][rot:] + POLICIES[pname][:rot]
+    for i, e in enumerate(ents):
         p = dict(cb['conn']['protect'][0])
-        p.update(index=20 + i, ip_proto=e['ip_proto'], my_port=e['my_port'], peer_port=e['peer_port'], mode=mode)
+        p.update(index=20 + i, ip_proto=e['ip_proto'], my_port=e['my_port'], peer_port=e['peer_port'], mode=e.get('mode', mode))
         p.pop('my_subnet', None)
         p.pop('peer_subnet', None)
         if e['my_subnet']:
@@ -174,14 +179,23 @@ def policy_selectors(pname):
 
         def s(net, port):
             return sel(str(net[0]), str(net[-1]), 0 if port == 0 else port, 65535 if port == 0 else port, pn)
-        out.append({'my': s(mynet, e['my_port']), 'peer': s(peernet, e['peer_port']), 'mynet': mynet, 'peernet': peernet, 'e': e})
+        out.append({'my': s(mynet, e['my_port']), 'peer': s(peernet, e['peer_port']), 'mynet': mynet, 'peernet': peernet, 'e': e, 'mode': e.get('mode')})
     return out
 
 
-def gen_ts_request(rng, pols):
+def gen_ts_request(rng, pols, forced=None):
     """TSi (initiator = peer side of the responder's policy) and TSr lists of length 1-3."""
-    kind = rng.choice(['inside', 'inside', 'exact', 'wider', 'disjoint', 'partial', 'other-proto', 'mixed-list', 'tsi-wider-tsr-narrower', 'tsi-narrower-tsr-wider', 'inside'])
+    kind = rng.choice(['inside', 'inside', 'exact', 'wider', 'disjoint', 'partial', 'other-proto', 'mixed-list', 'tsi-wider-tsr-narrower', 'tsi-narrower-tsr-wider', 'inside',
+                       'slightly-wider', 'slightly-wider'])
     pol = rng.choice(pols)
+    if forced:
+        kind, pol = forced[0], pols[forced[1]]
+
+    def around(s):
+        # the policy entry's own range and as much again after it: wider than this entry, far from every other one
+        lo, hi = int.from_bytes(s['saddr'], 'big'), int.from_bytes(s['eaddr'], 'big')
+        n = len(s['saddr'])
+        return {'tstype': s['tstype'], 'ipproto': 0, 'sport': 0, 'eport': 65535, 'saddr': s['saddr'], 'eaddr': min(hi + (hi - lo + 1), 256 ** n - 1).to_bytes(n, 'big')}
 
     def narrow(s):
         lo, hi = int.from_bytes(s['saddr'], 'big'), int.from_bytes(s['eaddr'], 'big')
@@ -200,6 +214,8 @@ def gen_ts_request(rng, pols):
         tsi, tsr = [dict(pol['peer'])], [dict(pol['my'])]
     elif kind == 'wider':
         tsi, tsr = [widen(pol['peer'])], [widen(pol['my'])]
+    elif kind == 'slightly-wider':
+        tsi, tsr = [around(pol['peer'])], [around(pol['my'])]
     elif kind == 'tsi-wider-tsr-narrower':
         tsi, tsr = [widen(pol['peer'])], [narrow(pol['my'])]
     elif kind == 'tsi-narrower-tsr-wider':
@@ -220,13 +236,20 @@ def gen_ts_request(rng, pols):
     return kind, tsi, tsr
 
 
-def responder_case(ck, rng, i):
-    pname = 'three-entries' if i % 2 else 'single-host'
+def responder_case(ck, rng, i, forced=None):
+    pname = ('three-entries', 'single-host', 'mixed-modes')[i % 3] if i % 2 == 0 else 'three-entries' if i % 4 == 1 else 'mixed-modes'
     mode = 'transport' if i % 3 else 'tunnel'
-    sim, b = make_responder(ck.seed * 11 + i, pname, mode)
+    if forced:
+        pname = 'mixed-modes'
+    sim, b = make_responder(ck.seed * 11 + i, pname, mode, rot=forced[3] if forced else 0)
     pols = policy_selectors(pname)
-    kind, tsi, tsr = gen_ts_request(rng, pols)
+    kind, tsi, tsr = gen_ts_request(rng, pols, forced)
     ask_transport = (mode == 'transport') if i % 7 else (mode != 'transport')
+    if pname == 'mixed-modes':
+        ask_transport = rng.random() < 0.5
+    if forced:
+        ask_transport = forced[2]
+        ck.count('responder.mixed_modes_grid')
     sim.case = {'family': 'responder', 'policy': pname, 'mode': mode, 'kind': kind, 'ask_transport': ask_transport, 'tsi': tsi, 'tsr': tsr}
     p = party.RefParty(S.A4, S.B4, rng)
     trs = [{'type': 1, 'id': 12, 'keylen': 256}, {'type': 3, 'id': 12, 'keylen': None}, {'type': 2, 'id': 5, 'keylen': None}, {'type': 4, 'id': 19, 'keylen': None}]
@@ -250,16 +273,22 @@ def responder_case(ck, rng, i):
         return inside(x, y) or inside(y, x)
     # refusal is REQUIRED only when no proposed pair has a packet in common with any policy entry; for partial / mixed overlaps a responder may
     # refuse or narrow, and whatever it installs is judged by the containment oracles below
-    possible = any(intersects(ti, pl['peer']) and intersects(tr, pl['my']) for ti in tsi for tr in tsr for pl in pols)
-    mode_ok = ask_transport == (mode == 'transport')
+    def pmode(pl):
+        return pl['mode'] or mode
+    asked = 'transport' if ask_transport else 'tunnel'
+    overlap = any(intersects(ti, pl['peer']) and intersects(tr, pl['my']) for ti in tsi for tr in tsr for pl in pols)
+    possible = any(intersects(ti, pl['peer']) and intersects(tr, pl['my']) and pmode(pl) == asked for ti in tsi for tr in tsr for pl in pols)
+    mode_ok = possible or not overlap
     ck.count(f'responder.{kind}')
     ck.seen('responder.kinds', (pname, kind, mode_ok))
     outcome = 'installed' if installed else 'ts-unacceptable' if 38 in nts else f'other:{nts}'
     ck.nontrivial(('responder', pname, mode, kind, mode_ok, outcome))
-    if not possible or not mode_ok:
+    if not possible:
         ck.count('responder.must_refuse')
+        if overlap:
+            ck.count('responder.must_refuse_because_of_the_mode')
         if installed or 38 not in nts or rtsi is not None:
-            ck.violation(f"request-matching-no-policy-or-mode-not-refused-with-ts-unacceptable:{'mode' if possible else 'selectors'}:{outcome.split(':')[0]}",
+            ck.violation(f"request-matching-no-policy-or-mode-not-refused-with-ts-unacceptable:{'mode' if overlap else 'selectors'}:{outcome.split(':')[0]}",
                          {'notifies': nts, 'installed': len(installed)}, sim.case)
         return
     if installed:
@@ -272,8 +301,11 @@ def responder_case(ck, rng, i):
             ck.violation('answered-selectors-not-inside-what-the-initiator-proposed', {'tsi': ctsi, 'tsr': ctsr}, sim.case)
         if not any(inside(ctsi, pl['peer']) and inside(ctsr, pl['my']) for pl in pols):
             ck.violation('answered-selectors-not-inside-any-policy-entry', {'tsi': ctsi, 'tsr': ctsr}, sim.case)
-        if (16391 in nts) != (mode == 'transport'):
-            ck.violation('answered-mode-differs-from-the-policy', {'notifies': nts}, sim.case)
+        entry_modes = {pmode(pl) for pl in pols if inside(ctsi, pl['peer']) and inside(ctsr, pl['my'])}
+        if entry_modes and asked not in entry_modes:
+            ck.violation('installed-in-the-mode-asked-for-although-the-policy-entry-of-the-answered-selectors-has-the-other-mode', {'asked': asked, 'entry_modes': sorted(entry_modes)}, sim.case)
+        if (16391 in nts) != ask_transport:
+            ck.violation('answered-mode-differs-from-the-mode-asked-for', {'notifies': nts}, sim.case)
         for r in installed:
             ksel = r['msg']['sa']['sel']
             outb = r['msg']['sa']['saddr'] == S.B4
@@ -287,8 +319,8 @@ def responder_case(ck, rng, i):
                     ck.violation('kernel-port-selector-wider-than-the-negotiated-selector', {'kernel': (kport, kmask), 'negotiated': (ts['sport'], ts['eport'])}, sim.case)
             if not any(mine.subnet_of(pl['mynet']) and theirs.subnet_of(pl['peernet']) for pl in pols):
                 ck.violation('kernel-selector-outside-the-policy-networks', {'sel': ksel}, sim.case)
-            if r['msg']['sa']['mode'] != (0 if mode == 'transport' else 1):
-                ck.violation('kernel-sa-mode-differs-from-the-policy', {'mode': r['msg']['sa']['mode']}, sim.case)
+            if entry_modes and r['msg']['sa']['mode'] not in {0 if m_ == 'transport' else 1 for m_ in entry_modes}:
+                ck.violation('kernel-sa-mode-differs-from-the-policy', {'mode': r['msg']['sa']['mode'], 'entry_modes': sorted(entry_modes)}, sim.case)
     else:
         ck.count('responder.refused_although_possible')      # allowed for partial overlaps; counted
 
@@ -386,15 +418,117 @@ def rekey_case(ck, rng, i):
             ck.count('rekey.selectors_equal')
 
 
+REKEY_VARIANTS = ['equal', 'wider-addresses-inside-the-policy', 'whole-policy', 'wider-than-the-policy', 'wider-ports', 'wider-protocol', 'narrower', 'disjoint-inside-the-policy',
+                  'list:equal+wider', 'list:wider+equal', 'tsi-equal-tsr-wider', 'tsi-wider-tsr-equal']
+
+
+def crafted_rekey_case(ck, rng, i):
+    """(5b) an independent initiator (valid keys) creates a CHILD_SA NARROWER than the responder's policy, then asks to rekey it with other selectors."""
+    variant = REKEY_VARIANTS[i % len(REKEY_VARIANTS)]
+    mode = 'tunnel' if (i // len(REKEY_VARIANTS)) % 2 else 'transport'
+    ca, cb = S.pair_conf(mode=mode)
+    pr = dict(cb['conn']['protect'][0])
+    pr.update(index=31, ip_proto='any', my_port=0, peer_port=0, mode=mode, my_subnet='10.2.0.0/16', peer_subnet='10.1.0.0/16')
+    cb['conn']['protect'] = [pr]
+    sim = S.Sim(ck.seed * 23 + i)
+    b = sim.add('B', [S.B4], cb)
+    sim.case = {'family': 'crafted-rekey', 'variant': variant, 'mode': mode}
+    p = party.RefParty(S.A4, S.B4, rng)
+    trs = [{'type': 1, 'id': 12, 'keylen': 256}, {'type': 3, 'id': 12, 'keylen': None}, {'type': 2, 'id': 5, 'keylen': None}, {'type': 4, 'id': 19, 'keylen': None}]
+    sim.inject(b, S.A4, S.B4, p.init_request(trs, 19))
+    if not sim.net or not p.take_init_response(sim.net.pop(0).data):
+        return
+    child = [{'type': 1, 'id': 12, 'keylen': 256}, {'type': 3, 'id': 12, 'keylen': None}, {'type': 5, 'id': 0, 'keylen': None}]
+    lo = rng.randrange(1, 200)
+    old_i = sel(f'10.1.5.{lo}', f'10.1.5.{lo + rng.randrange(0, 40)}', 1000, 2000, 6)
+    old_r = sel('10.2.7.16', '10.2.7.31', 0, 65535, 6)
+    sim.inject(b, S.A4, S.B4, p.auth_request(c02.ID_A[0], c02.ID_A[1], 2, p.auth_psk(c02.PSK_A, *c02.ID_A), child, 3, [old_i], [old_r], mode == 'transport'))
+    if not sim.net:
+        return
+    _h, inner, _i = p.open(sim.net.pop(0).data)
+    rtsi = next((x for x in inner if x['type'] == codec.TSI), None)
+    first = [r for r in b.kernel.requests if r['msg'] and r['msg']['name'] == 'NEWSA']
+    if rtsi is None or len(first) != 2:
+        ck.count('crafted_rekey.first_child_not_created')
+        return
+    old_sel = {r['msg']['sa']['id']['daddr']: r['msg']['sa']['sel'] for r in first}
+
+    def wide(s_, addr=False, ports=False, proto=False, policy=False, beyond=False):
+        o = dict(s_)
+        if addr:
+            o['saddr'], o['eaddr'] = o['saddr'][:3] + b'\0', o['eaddr'][:3] + b'\xff'
+        if policy:
+            o.update(saddr=o['saddr'][:2] + b'\0\0', eaddr=o['saddr'][:2] + b'\xff\xff', sport=0, eport=65535, ipproto=0)
+        if beyond:
+            o.update(saddr=b'\x0a\0\0\0', eaddr=b'\x0a\xff\xff\xff', sport=0, eport=65535, ipproto=0)
+        if ports:
+            o['sport'], o['eport'] = 0, 65535
+        if proto:
+            o['ipproto'] = 0
+        return o
+    W = {'equal': ([old_i], [old_r]), 'wider-addresses-inside-the-policy': ([wide(old_i, addr=True)], [wide(old_r, addr=True)]),
+         'whole-policy': ([wide(old_i, policy=True)], [wide(old_r, policy=True)]), 'wider-than-the-policy': ([wide(old_i, beyond=True)], [wide(old_r, beyond=True)]),
+         'wider-ports': ([wide(old_i, ports=True)], [old_r]), 'wider-protocol': ([wide(old_i, proto=True)], [wide(old_r, proto=True)]),
+         'narrower': ([dict(old_i, eaddr=old_i['saddr'])], [dict(old_r, eaddr=old_r['saddr'])]),
+         'disjoint-inside-the-policy': ([sel('10.1.9.1', '10.1.9.9', 1000, 2000, 6)], [sel('10.2.9.1', '10.2.9.9', 0, 65535, 6)]),
+         'list:equal+wider': ([old_i, wide(old_i, addr=True)], [old_r, wide(old_r, addr=True)]), 'list:wider+equal': ([wide(old_i, addr=True), old_i], [wide(old_r, addr=True), old_r]),
+         'tsi-equal-tsr-wider': ([old_i], [wide(old_r, addr=True)]), 'tsi-wider-tsr-equal': ([wide(old_i, addr=True)], [old_r])}
+    tsi, tsr = W[variant]
+    new_spi = bytes(rng.randrange(256) for _ in range(4))
+    pls = [{'type': codec.NOTIFY, 'critical': False, 'proto': 3, 'spi': p.child_spi, 'ntype': 16393, 'data': b''},
+           {'type': codec.SA, 'critical': False, 'proposals': [{'num': 1, 'proto': 3, 'spi': new_spi, 'transforms': child}]},
+           {'type': codec.NONCE, 'critical': False, 'data': bytes(rng.randrange(256) for _ in range(32))},
+           {'type': codec.TSI, 'critical': False, 'selectors': tsi}, {'type': codec.TSR, 'critical': False, 'selectors': tsr}]
+    if mode == 'transport':
+        pls.append({'type': codec.NOTIFY, 'critical': False, 'proto': 0, 'spi': b'', 'ntype': 16391, 'data': b''})
+    sim.inject(b, S.A4, S.B4, p.seal(36, 2, pls, response=False))
+    ck.count(f'crafted_rekey.{variant}')
+    if not sim.net:
+        ck.violation('responder-did-not-answer-a-rekey-request', {}, sim.case)
+        return
+    _h, inner, _i = p.open(sim.net.pop(0).data)
+    nts = [x['ntype'] for x in inner if x['type'] == codec.NOTIFY]
+    new = [r for r in b.kernel.requests if r['msg'] and r['msg']['name'] == 'NEWSA'][2:]
+    atsi = next((x for x in inner if x['type'] == codec.TSI), None)
+    atsr = next((x for x in inner if x['type'] == codec.TSR), None)
+    outcome = 'installed' if new else 'ts-unacceptable' if 38 in nts else f'other:{nts}'
+    ck.nontrivial(('crafted-rekey', variant, mode, outcome))
+    ck.seen('crafted_rekey.outcomes', (variant, outcome))
+    if variant == 'equal' and len(new) != 2:
+        ck.violation('rekey-with-the-selectors-of-the-replaced-sa-refused', {'notifies': nts}, sim.case)
+    if new:
+        ck.count('crafted_rekey.installed')
+        for r in new:
+            want = old_sel.get(r['msg']['sa']['id']['daddr'])
+            if r['msg']['sa']['sel'] != want:
+                ck.violation(f'rekeyed-child-sa-installed-with-other-selectors-than-the-replaced-one:{variant}', {'old': want, 'new': r['msg']['sa']['sel']}, sim.case)
+        if atsi is None or atsr is None or atsi['selectors'] != [old_i] or atsr['selectors'] != [old_r]:
+            ck.violation(f'rekey-answered-with-other-selectors-than-those-of-the-replaced-sa:{variant}', {'tsi': atsi and atsi['selectors'], 'tsr': atsr and atsr['selectors']}, sim.case)
+    elif variant != 'equal':
+        ck.count('crafted_rekey.refused')
+        if 38 not in nts:
+            ck.violation(f'rekey-with-other-selectors-refused-without-ts-unacceptable:{variant}', {'notifies': nts}, sim.case)
+
+
 def run(ck):
     rng = ck.rng('c12', ck.shard[0])
     thorough = ck.thorough()
     exhaustive_subset(ck)
     random_subset(ck, rng, 4000 if not thorough else 150000)
     network_roundtrip(ck, rng, 3000 if not thorough else 100000)
-    for i in range(400 if not thorough else 60000):
+    for i in range(800 if not thorough else 60000):
         if ck.mine(i):
             responder_case(ck, ck.rng('resp', i), i)
+    # grid over the policy with entries of different modes: entry x shape of the proposal x mode asked for x position of the entry in the list
+    g = 100000
+    for rep in range(1 if not thorough else 20):
+        for kind in ('exact', 'inside', 'slightly-wider', 'wider', 'tsi-wider-tsr-narrower', 'tsi-narrower-tsr-wider'):
+            for pi in range(3):
+                for ask in (True, False):
+                    for rot in range(3):
+                        g += 1
+                        if ck.mine(g):
+                            responder_case(ck, ck.rng('grid', g), g, forced=(kind, pi, ask, rot))
     for rep in range(1 if not thorough else 40):
         for vi in range(60):
             if ck.mine(vi + rep):
@@ -402,6 +536,9 @@ def run(ck):
     for i in range(40 if not thorough else 4000):
         if ck.mine(i):
             rekey_case(ck, ck.rng('rekey', i), i)
+    for i in range(4 * len(REKEY_VARIANTS) if not thorough else 200 * len(REKEY_VARIANTS)):
+        if ck.mine(i):
+            crafted_rekey_case(ck, ck.rng('crafted-rekey', i), i)
 
 
 def verdict(ck):
@@ -409,8 +546,11 @@ def verdict(ck):
     ck.floor('exhaustive selector pairs', c['subset.pairs'], 3 * 32400)
     ck.floor('network round trips', c['network.roundtrips'], 2000)
     ck.floor('responder installs judged', c['responder.installed'], 60)
+    ck.floor('mixed-mode policy grid cases', c['responder.mixed_modes_grid'], 100)
     ck.floor('responder refusals required', c['responder.must_refuse'], 60)
     ck.floor('kernel selectors checked', c['responder.kernel_selectors_checked'], 100)
     ck.floor('initiator response variants', len(ck.sets['initiator.labels']), 30)
+    ck.floor('crafted rekey requests judged', c['crafted_rekey.installed'] + c['crafted_rekey.refused'], 40)
+    ck.floor('crafted rekey requests with equal selectors installed', c['crafted_rekey.equal'], 4)
     ck.floor('rekeys with equal selectors', c['rekey.selectors_equal'], 40)
     return {'exhaustive': True}
